@@ -81,6 +81,19 @@ def extract(tree):
     if not m:
         raise ExtractError("cfun_array_push: overflow guard not recognised")
     o["arrayCfunPushGrowth"] = int(m.group(1))
+    # ---- array/ensure argument validation
+    b = norm(core_fn_body(arr, "cfun_array_ensure"))
+    m = re.search(r"int32_t newcount = janet_getinteger\(argv, 1\); int32_t growth = janet_getinteger\(argv, 2\); "
+                  r"if \(newcount < 1\) janet_panic\(\"expected positive integer\"\); (.*?)janet_array_ensure\(array, newcount, growth\);", b)
+    if not m:
+        raise ExtractError("cfun_array_ensure: argument decoding not recognised")
+    chk = m.group(1).strip()
+    if chk == "":
+        o["ensureChecksGrowth"] = False
+    elif re.fullmatch(r"if \(growth < 1\) janet_panicf?\(\"[^\"]*\"(, [^)]*)?\);", chk):
+        o["ensureChecksGrowth"] = True
+    else:
+        raise ExtractError("cfun_array_ensure: unrecognised statements before janet_array_ensure: %r" % chk)
     # ---- janet_putindex
     b = norm(csrc.func_body(val, "janet_putindex"))
     m = re.search(r"case JANET_ARRAY: \{ JanetArray \*array = janet_unwrap_array\(ds\); if \(index >= array->count\) \{ janet_array_ensure\(array, index \+ 1, (\d+)\); (.*?)array->count = index \+ 1; \} array->data\[index\] = value; break; \}", b)
